@@ -61,6 +61,16 @@ def gen_int_cases(tier):
                 for x in values(a, "tiny")[:4]:
                     for y in values(b, "tiny")[-3:]:
                         out.append(("cond/%s,%s" % (TN[a], TN[b]), ("cond", K(c, 3), K(x, a), K(y, b))))
+    # operands that are not evaluated may divide by zero (6.6p3 footnote: only evaluated operands count)
+    DZ = [("bin", "/", K(1, 3), K(0, 3)), ("bin", "%", K(7, 4), K(0, 4)), ("bin", "/", K(5, 7), ("bin", "-", K(2, 7), K(2, 7)))]
+    for dz in DZ:
+        for t in (3, 4, 7, 8):
+            out.append(("uneval/&&/%s" % TN[t], ("bin", "&&", K(0, t), dz)))
+            out.append(("uneval/||/%s" % TN[t], ("bin", "||", K(1, t), dz)))
+            out.append(("uneval/?:then/%s" % TN[t], ("cond", K(0, t), dz, K(2, 3))))
+            out.append(("uneval/?:else/%s" % TN[t], ("cond", K(1, t), K(2, 3), dz)))
+            out.append(("uneval/nested/%s" % TN[t], ("bin", "&&", K(0, t), ("bin", "||", K(0, 3), dz))))
+            out.append(("uneval/sum/%s" % TN[t], ("bin", "+", ("bin", "||", K(1, t), dz), K(3, 3))))
     # two-operator compositions over rank-representative types
     R = [1, 3, 7, 4, 8] if tier == "quick" else [1, 6, 3, 7, 4, 8]
     ops2 = BINOPS if tier == "thorough" else ["+", "-", "*", "/", "%", "&", "<<", ">>", "<", "==", "&&"]
@@ -133,6 +143,17 @@ def gen_float_cases(tier):
         for b in range(1, nb // 2):
             out.append(("f/dense/mul/double", "(0.%03d * %d.%d)" % (a * 7 + 1, b % 17 + 1, b), "d"))
             out.append(("f/dense/add/double", "(0.%03d + %d.%de-3)" % (a * 7 + 1, b % 17 + 1, b), "d"))
+    # a narrowing conversion under another conversion must still round (cast chains, casts as operands)
+    src = [(c + sfx, i) for c in ("0.1", "16777217.0", "33554433.0", "9007199254740993.0", "0.3", "1e10", "1.0000000596046448") for i, sfx in enumerate(FSUF)]
+    src += [(cint.lit(v, t), 9) for v, t in ((16777217, 3), (33554433, 3), (9007199254740993, 4), (18446744073709551615, 8), (-16777217, 3))]
+    for (a, ta) in src:
+        for d1 in range(3):
+            for d2 in range(3):
+                out.append(("f/castchain/%s<-%s<-%s" % (FT[d2], FT[d1], FT[ta] if ta < 3 else "int"), "((%s)(%s)%s)" % (FT[d2], FT[d1], a), "fdl"))
+            out.append(("f/cast-eq/%s/%s" % (FT[d1], FT[ta] if ta < 3 else "int"), "(((%s)%s) == %s)" % (FT[d1], a, a), "I"))
+            out.append(("f/cast-plus/%s/%s" % (FT[d1], FT[ta] if ta < 3 else "int"), "(((%s)%s) + 1.0)" % (FT[d1], a), "dl"))
+            out.append(("f/cast-times/%s/%s" % (FT[d1], FT[ta] if ta < 3 else "int"), "(((%s)%s) * 1.0L)" % (FT[d1], a), "l"))
+            out.append(("f/cast-bound/%s/%s" % (FT[d1], FT[ta] if ta < 3 else "int"), "((((%s)%s) == %s) + 2)" % (FT[d1], a, a), "I"))
     ints = [(cint.lit(v, t), t) for t in range(9) for v in values(t, "tiny")]
     ints += [(cint.lit(v, t), t) for t in (3, 4, 7, 8) for v in (16777217, 2147483647, 4294967295, 9007199254740993, 9223372036854775807, 18446744073709551615, -16777217, -9007199254740993) if cint.fits(v, t)]
     for (s, t) in ints:
@@ -248,6 +269,36 @@ def build_float_batch(cases):
     return "\n".join(u) + "\n", "\n".join(d) + "\n", idx
 
 
+def gen_sbf_cases():
+    """static initializers of bit-field members: (cid, base type, width, expression text)"""
+    out = []
+    vals = ["0x123456789a", "-1", "0x7fffffff", "0x80000000", "0xffffffffff", "1", "0x5555555555555555", "-0x123456789aL", "(1L << 62) + 5", "255"]
+    for base, maxw in (("long", 64), ("unsigned long", 64), ("int", 32), ("unsigned", 32), ("short", 16), ("unsigned char", 8)):
+        for w in (1, 7, 8, 15, 16, 31, 32, 33, 40, 63, 64):
+            if w > maxw:
+                continue
+            for v in vals:
+                out.append(("sbf/%s:%d" % (base.replace(" ", ""), w), base, w, v))
+    return out
+
+
+def build_sbf_batch(cases):
+    u, d = [], ["#include <stdio.h>"]
+    for i, (cid, base, w, v) in enumerate(cases):
+        u.append("struct FN(sb%d) { char lead; %s f : %d; %s g : 3; };" % (i, base, w, "unsigned" if "unsigned" in base else "int"))
+        u.append("struct FN(sb%d) FN(sbv%d) = { 1, %s, 2 };" % (i, i, v))
+        # (the field is copied to a long first: arithmetic directly on a bit-field wider than int is implementation-defined)
+        u.append("long FN(sbs%d)(void) { long f = FN(sbv%d).f, g = FN(sbv%d).g; return (f ^ (f >> 7)) * 8 + (g & 7); }" % (i, i, i))
+        u.append("long FN(sbr%d)(void) { struct FN(sb%d) s; s.lead = 1; s.f = %s; s.g = 2; long f = s.f, g = s.g; return (f ^ (f >> 7)) * 8 + (g & 7); }" % (i, i, v))
+        d.append("long cc_sbs%d(void), cc_sbr%d(void), ref_sbs%d(void), ref_sbr%d(void);" % (i, i, i, i))
+    d.append("int main(void) {")
+    for i in range(len(cases)):
+        d.append(" { long rs = ref_sbs%d(), rr = ref_sbr%d(), cs = cc_sbs%d(), cr = cc_sbr%d();" % (i, i, i, i))
+        d.append("   if (rs != rr) printf(\"O %d\\n\"); else if (cs != rs) printf(\"B %d fold got=%%ld want=%%ld rt=%%ld\\n\", cs, rs, cr); else if (cr != rs) printf(\"B %d rt got=%%ld want=%%ld\\n\", cr, rs); }" % (i, i, i))
+    d.append(" return 0; }")
+    return "\n".join(u) + "\n", "\n".join(d) + "\n"
+
+
 class _C:
     chibicc = None
 
@@ -260,6 +311,8 @@ def _run(args):
         unit, drv = build_int_batch(cases)
     elif kind == "pos":
         unit, drv = build_pos_batch(cases)
+    elif kind == "sbf":
+        unit, drv = build_sbf_batch(cases)
     else:
         unit, drv, idx = build_float_batch(cases)
     res = twin.twin_run(c, wd, name, unit, drv, run_timeout=300)
@@ -268,7 +321,8 @@ def _run(args):
 
 def _compiles(chibicc, wd, kind, cases):
     c = _C(); c.chibicc = chibicc
-    unit = (build_int_batch(cases)[0] if kind == "int" else build_pos_batch(cases)[0] if kind == "pos" else build_float_batch(cases)[0])
+    unit = (build_int_batch(cases)[0] if kind == "int" else build_pos_batch(cases)[0] if kind == "pos" else
+            build_sbf_batch(cases)[0] if kind == "sbf" else build_float_batch(cases)[0])
     p = os.path.join(wd, "bis.c")
     with open(p, "w") as f:
         f.write(twin.PRELUDE + unit)
@@ -305,6 +359,8 @@ def single(kind, case):
         u, d = build_int_batch([case])
     elif kind == "pos":
         u, d = build_pos_batch([case])
+    elif kind == "sbf":
+        u, d = build_sbf_batch([case])
     else:
         u, d, _ = build_float_batch([case])
     return {"unit.c": twin.PRELUDE + u, "driver.c": d}
@@ -343,6 +399,9 @@ def run(ctx):
         jobs.append((ctx.chibicc, os.path.join(ctx.work, "p%d" % i), "p%d" % i, "pos", b))
     for i, b in enumerate(core.chunks(fcases, 1500)):
         jobs.append((ctx.chibicc, os.path.join(ctx.work, "f%d" % i), "f%d" % i, "flt", b))
+    sbf = gen_sbf_cases()
+    for i, b in enumerate(core.chunks(sbf, 300)):
+        jobs.append((ctx.chibicc, os.path.join(ctx.work, "s%d" % i), "s%d" % i, "sbf", b))
     jobmap = {j[2]: j for j in jobs}
     judged = odis = 0
     classes = set()
@@ -372,6 +431,9 @@ def run(ctx):
             for line in res["stdout"].splitlines():
                 f = line.split()
                 if f[0] == "O":
+                    if kind == "sbf":      # gcc's static and run-time values differ (out-of-range signed conversion): not judged
+                        ctx.cover(sbf_not_judged=1)
+                        continue
                     odis += 1
                     ctx.sample({"oracle_disagreement": line, "case": str(cases[int(f[2] if kind == "flt" else f[1])][:2])}, limit=10)
                 elif f[0] in ("V", "T"):
@@ -389,6 +451,10 @@ def run(ctx):
                     p = POSITIONS[int(f[2])]
                     ctx.violation("C07|position:%s|%s|%s,%s" % (p, c[0], f[3], f[4]), "%s in %s: %s -> %s" % (c[0], p, adapter(text(c[1])), line),
                                   files=single("pos", c), replay=REPLAY)
+                elif f[0] == "B":
+                    c = cases[int(f[1])]
+                    ctx.violation("C07|static-bitfield-%s|%s" % (f[2], c[0]), "%s: static initializer %s of a %s bit-field of width %d -> %s" % (c[0], c[3], c[1], c[2], line),
+                                  files=single("sbf", c), replay=REPLAY.replace("[VTPF]", "[VTPFB]"))
                 elif f[0] == "F":
                     k, j = f[1], int(f[2])
                     c = cases[idx[k][j]]
@@ -423,7 +489,7 @@ def run(ctx):
     if odis:
         raise core.HarnessError("model/gcc disagree on %d cases (see samples)" % odis)
     ctx.cover(evaluations=judged + ndz, distinct_nontrivial=len(classes), skipped_undefined=skipped, int_cases=len(icases), position_cases=len(pos) * 7,
-              float_cases=len(fcases), divzero_runs=ndz,
+              float_cases=len(fcases), static_bitfield_cases=len(sbf), divzero_runs=ndz,
               rule="case = constant expression with literal operands (operator x operand types x threshold value tuple); distinct = distinct "
                    "(operator, operand-type tuple) classes with at least one C11-defined tuple; each judged in static-initializer and run-time form, "
                    "a per-class subset in 7 further constant positions; floating folding compared bytewise with gcc (static and run-time)")
